@@ -396,13 +396,14 @@ type recMsg struct {
 	node  uint64
 	err   bool
 	items []*pb.SearchResultItem
+	parts [][]byte // the partition ids this node was asked for
 }
 
 func (c *memSearchClient) SearchPartitions(ctx context.Context, in *pb.SearchPartitionsRequest, opts ...grpc.CallOption) (pb.Search_SearchPartitionsClient, error) {
 	rec := func(err bool, items []*pb.SearchResultItem) {
 		searchRec.mu.Lock()
 		if searchRec.on {
-			searchRec.msgs = append(searchRec.msgs, recMsg{c.to.id, err, items})
+			searchRec.msgs = append(searchRec.msgs, recMsg{c.to.id, err, items, in.GetPartitionIds()})
 		}
 		searchRec.mu.Unlock()
 	}
